@@ -7,8 +7,9 @@ V = Path(__file__).resolve().parent.parent
 for rf in sorted(glob.glob('/tmp/seedres/C*-*m*.json')):
     name = Path(rf).stem            # C01-m1
     pid, mk = name.split('-')
-    if mk.startswith('r') and mk[1].isdigit():
-        src = Path(f'/tmp/seed{mk[1]}-{pid}/{mk[2:]}')
+    mm = re.match(r'^r(\d+)(m\d+)$', mk)
+    if mm:
+        src = Path(f'/tmp/seed{mm.group(1)}-{pid}/{mm.group(2)}')
     else:
         src = Path(f'/tmp/seed-{pid}/{mk}')
     if not src.exists():
